@@ -672,6 +672,56 @@ mut("C20", "width-accounting-after-continue", "R20-5|completers::escaped_word_st
             continue;
         }"""))
 
+mut("C11", "backquote-error-skips-counter", "R11-7|shell::do_command_substitution_for_dot|scan-counter",
+    "an unparsable `cmd` word leaves the position counter behind (the state before repo fix d1c87eb)",
+    (S, """                    // empty replacement; idx has to stay in step with the scan
+                    buff.insert(idx, String::new());
+                    idx += 1;
+                    continue;""", """                    continue;"""))
+mut("C13", "empty-substitution-removed-first", "R13-4|shell::do_command_substitution_for_dot|stale-index",
+    "tokens whose $(...) printed nothing are removed before the recorded results are written back",
+    (S, """    for (i, text) in buff.iter() {
+        tokens[*i].1 = text.to_string();
+    }
+}
+
+fn do_command_substitution(""", """    let empties: Vec<usize> = buff.iter().filter(|(_, t)| t.is_empty()).map(|(i, _)| *i).collect();
+    for i in empties.iter() {
+        if tokens[*i].0.is_empty() {
+            tokens.remove(*i);
+        }
+    }
+    for (i, text) in buff.iter() {
+        if !text.is_empty() {
+            tokens[*i].1 = text.to_string();
+        }
+    }
+}
+
+fn do_command_substitution("""))
+mut("C15", "positional-pass-skips-counter", "R15-6|scripting::expand_args_in_tokens|scan-counter",
+    "a quoted word is skipped without advancing the position counter",
+    ("src/scripting.rs", """        if sep == "`" || sep == "'" || sep == "\\\\" || !is_args_in_token(token) {
+            idx += 1;
+            continue;
+        }""", """        if sep == "`" || sep == "'" || sep == "\\\\" {
+            continue;
+        }
+        if !is_args_in_token(token) {
+            idx += 1;
+            continue;
+        }"""))
+mut("C11", "run-proc-assignment-fast-path", "R11-8|execute::run_proc|expanded-twice",
+    "run_proc plans the line only to look for assignments and plans it again to run it",
+    (E, """    let log_cmd = !sh.cmd.starts_with(' ');
+    match CommandLine::from_line(line, sh) {""", """    let log_cmd = !sh.cmd.starts_with(' ');
+    if let Ok(probe) = CommandLine::from_line(line, sh) {
+        if probe.is_empty() && probe.envs.is_empty() {
+            return CommandResult::new();
+        }
+    }
+    match CommandLine::from_line(line, sh) {"""))
+
 # ------------------------------------------------------------------ C13
 mut("C13", "env-resets-tag", "R13-2", "expand_env drops the quote tag of the token it rewrites",
     (S, '''    for (i, text) in buff.iter().rev() {
